@@ -18,7 +18,7 @@ from ..core import (
     short,
     walk_no_nested,
 )
-from ..flow import Opaque, guards, loops_around, reaching
+from ..flow import Opaque, conditions, guards, loops_around, reaching
 from ..resolve import method_def, resolve_callee
 
 TOPO = "utils.toposort"
@@ -113,7 +113,7 @@ def restore_pairing(prog: Program) -> RuleResult:
                 mod,
                 escapes[0],
             )
-        elif guards(fn, good[0][1]) != guards(fn, dloop):
+        elif conditions(fn, good[0][1]) != conditions(fn, dloop):
             res.fail(construct, "the restore loop is conditional", mod, good[0][1])
         else:
             res.ok(construct, f"`{table}[x] -= {amount}` over {short(dloop.iter)} is undone after the recursion")
@@ -228,7 +228,7 @@ def indeg_init(prog: Program) -> RuleResult:
             problems = []
             if not step or step[1] != "+" or step[2] != 1:
                 problems.append("in-degrees are not incremented by one per edge")
-            elif guards(fn, next(n for n in walk_no_nested(inner[0]) if isinstance(n, ast.AugAssign))) :
+            elif conditions(fn, next(n for n in walk_no_nested(inner[0]) if isinstance(n, ast.AugAssign))) :
                 problems.append("the in-degree increment is conditional")
             if not removes:
                 problems.append("successors are not removed from the start set")
@@ -357,7 +357,7 @@ def graph_keys(prog: Program) -> RuleResult:
         and dotted(adds[0].func.value.slice) == first
         and adds[0].args
         and dotted(adds[0].args[0]) == second
-        and not guards(fn, adds[0])
+        and not conditions(fn, adds[0])
     )
     if ok_edge:
         res.ok(f"{base}/edge", f"{g}[{first}].add({second})")
@@ -649,7 +649,7 @@ def feature_copy(prog: Program) -> RuleResult:
             and dotted(value.args[1]) == dotted(call.args[0])
         ):
             problems.append(f"the copied value `{short(value)}` is not the original node's attribute")
-        if guards(fn, call) and any(not _is_not_leaf(g, pol) for g, pol in guards(fn, call)):
+        if conditions(fn, call) and any(not _is_not_leaf(g, pol) for g, pol in conditions(fn, call)):
             problems.append("the copy is conditional")
         if problems:
             res.fail(construct, "; ".join(problems), mod, call)
